@@ -21,7 +21,9 @@ RULE = ("a case = capacity 1-6, period (even µs; odd µs only in the model=code
         "around the reject boundary; on/next to the grid and around the half-way point; value/None/NaN), then after "
         "EVERY update gaps/counts/oldest/newest and at the end 40-324 index windows, 37+ datetime windows (fill_value NaN, "
         "0, 0.0, negative, fractional, None; every explicit fill value through OrderedRingBuffer.window AND "
-        "MovingWindow.window), at(i) for "
+        "MovingWindow.window; plus datetime windows placed relative to both ends of the stored span: entirely "
+        "after the newest / before the oldest slot, straddling, exactly one period outside, far away, on and off "
+        "the grid, raw reads with and without force_copy — a legal range never raises), at(i) for "
         "|i| <= cap+2, at(dt); thorough adds the exhaustive state graph of capacity 3 over 9 slots x {value,None,NaN} "
         "to depth 6; non-trivial = >= 3 accepted updates incl. a missing value, a skipped slot, an out-of-order or an "
         "off-grid timestamp; distinct by canonical JSON hash")
@@ -172,6 +174,9 @@ def exhaustive_queries(cap: int, period: int, align: int) -> list[dict]:
         qs += [{"k": "wts", "a": align - period, "b": align + 10 * period, "fill": f, "fi": fi} for f, fi in g.FILLS]
         qs += [{"k": "ati", "i": i} for i in range(-cap - 1, cap + 2)]
         qs += [{"k": "att", "t": t} for t in ts]
+        # raw reads with and without a copy, also for ranges outside the stored span
+        qs += [{"k": "wts", "a": a, "b": a + d, "fill": "raw", "fc": fc}
+               for a in ts[::2] for d in (600_000, 2_000_000) for fc in (True, False)]
         _EXQ[key] = qs
     return _EXQ[key]
 
@@ -198,8 +203,8 @@ def run(ctx: Ctx) -> None:
     for i in range(n):
         rng = ctx.subrng("case", i)
         case = g.gen_case(rng)
-        if i % 10 == 0:  # richer query set every tenth case
-            case["q"] = g.gen_queries(rng, case, rich=True)
+        if i % 10 == 0:  # richer query set every tenth case; every 50th: ALL windows placed relative to the span's ends
+            case["q"] = g.gen_queries(rng, case, rich=True) + g.span_queries(case, None if i % 50 == 0 else rng)
         cases.append(case)
         outs.append(check_one(ctx, case))
     # odd-µs periods: `sampling_period / 2` is not exact there and the rounding of `normalize_timestamp` is not
